@@ -26,7 +26,7 @@ ALL_PROPS = ['C%02d' % i for i in range(1, 18)]
 ORACLES = {'C01': 'solvency', 'C02': 'solvency', 'C04': 'solvency', 'C06': 'exit_liveness', 'C08': 'approver_tracks_size',
            'C09': 'solvency', 'C10': 'mechanism', 'C11': 'bid_consistency'}
 # properties with strict-mode (liveness) clauses
-STRICT_PROPS = {'C03', 'C06', 'C07', 'C13'}
+STRICT_PROPS = {'C06'}
 
 
 def log(msg):
